@@ -19,13 +19,13 @@ Proof.
     + intros x [Ex|Ix]; [subst; eauto|apply T; exact Ix].
 Qed.
 
-Lemma qsum_acc l : forall x, (fold_left Qplus l x == x + fold_left Qplus l 0)%Q.
+Lemma qsum_acc l : forall x, (fold_left qadd l x == x + fold_left qadd l 0)%Q.
 Proof.
   induction l as [|a l IH]; intro x; cbn [fold_left]; [ring|].
-  rewrite (IH (x + a)%Q), (IH (0 + a)%Q). ring.
+  rewrite (IH (qadd x a)), (IH (qadd 0 a)), !qadd_correct. ring.
 Qed.
 Lemma qsum_cons a l : (qsum (a :: l) == a + qsum l)%Q.
-Proof. unfold qsum. cbn [fold_left]. rewrite qsum_acc. ring. Qed.
+Proof. unfold qsum. cbn [fold_left]. rewrite qsum_acc, qadd_correct. ring. Qed.
 Lemma qsum_nil : (qsum [] == 0)%Q.
 Proof. reflexivity. Qed.
 
